@@ -91,6 +91,11 @@ Example ex_drive :
   /\ potential unit budget budget (nat * budget) (c_fr_step ex_fp) (c_plan ex_fp) c_upd ex_file (c_init ex_fp ex_b) = 12%nat.
 Proof. vm_compute. split; reflexivity. Qed.
 
+Example ex_async :
+  stream_collect unit budget budget (nat * budget) (c_fr_step ex_fp) (c_plan ex_fp) c_upd ex_file 60 [2; 0; 5]%nat
+    {| s_req := QNone; s_dec := c_init ex_fp ex_b |} = ([tt; tt; tt], true).
+Proof. vm_compute. reflexivity. Qed.
+
 (* the trace predicate accepts the trace of this run and rejects a stalled decoder *)
 Example ex_trace_safe :
   trace_safe 40 [] false
